@@ -149,6 +149,13 @@ def updateSlurries (pl : PL) : PL :=
     | .pump _ => PSec.pump main
   { secs := secs, main := main, slurries := m }
 
+/-- what `calc_system_head` does to the objects before it sums: every pump in the line is pointed at the pipeline slurry (a pump object may also be
+part of another pipeline, whose slurry it held until now); nothing else changes -/
+def bindPumps (pl : PL) : PL :=
+  { pl with secs := pl.secs.map fun s => match s with
+      | .pipe d => PSec.pipe d
+      | .pump _ => PSec.pump pl.main }
+
 /-- `Pipeline.Cv = c` / `Pipeline.slurry = s` (the parameter set changes, then `update_slurries`) -/
 def setParams (pl : PL) (p : Nat) : PL := updateSlurries { pl with main := { pl.main with p := p } }
 def setSlurry (pl : PL) (s : Slurry) : PL := updateSlurries { pl with main := s }
